@@ -7,7 +7,7 @@ in order, merges reference URIs into the result's referral list and drops interm
 import streamlane
 import connlane as L
 
-CONN_PROFILES = {"quick": [("timeouts", 150), ("plain", 80)], "thorough": [("timeouts", 2500), ("plain", 1000), ("mixed", 1500)]}
+CONN_PROFILES = {"quick": [("timeouts", 150), ("plain", 80), ("aderr", 100)], "thorough": [("timeouts", 2500), ("plain", 1000), ("mixed", 1500), ("aderr", 1500)]}
 CONN_RULE = ("connection lane: the same seeded concurrent scenarios as C01/C12 (timed and untimed streams, direct and EntriesOnly, "
              "early finish, extra next() calls after the end / after a timeout / after a failure); C10 owns the state() reported "
              "after every stream call, next() outside Active (must be an immediate Ok(None)), finish codes, and panics inside stream calls")
